@@ -264,7 +264,8 @@ def run_trace(res, shipped_cache):
     a = job["args"]
     rr = {"country": c, "method": a.get("method") or "", "lang": a.get("lang") or "", "from": a["from"] if a.get("from") is not None else NO_DAY,
           "to": a["to"] if a.get("to") is not None else NO_TO, "neg": bool(a.get("neg")), "sched": job.get("sched") or [], "prefix": a.get("prefix") or "",
-          "shipped": shipped_cache[c], "fault": job.get("fault", ""), "pre": sorted(job.get("pre_files", {})), "minyear": min_taxable_year(job["assets"])}
+          "shipped": shipped_cache[c], "fault": job.get("fault", ""), "pre": sorted(job.get("pre_files", {})),
+          "minyear": min_taxable_year({a["asset"]: job["assets"][a["asset"]]} if a.get("asset") in job["assets"] else job["assets"])}
     if tup["shape"] == "inverted" and job.get("fault", "") == "":
         pass
     tail = r.get("output_tail", "")
@@ -373,6 +374,13 @@ def run_c16_c12(prop, tier):
             name, assets = ins[n % len(ins)]
             job = make_run_job(t, assets, rnd, mode="console" if n % 40 == 7 else ("exec" if n % 40 == 3 else "fork"))
             job["input_kind"] = name
+            # the remaining options of the command line: -p (file names carry the prefix), -a with a configured asset (same files), -o relative
+            if n % 5 == 1:
+                job["args"]["prefix"] = ["my_", "2024-"][n % 2]
+            if n % 7 == 2:
+                job["args"]["asset"] = sorted(assets)[(n // 7) % len(assets)]
+            if n % 6 == 4 and job["mode"] != "console":
+                job["relative_out"] = True
             jobs.append(job)
     else:
         bad_opts = [t for t, v in tuples if v == "unsupported" and t["fault"] == ""]
